@@ -148,6 +148,75 @@ class Tracer:
                             self._agg_site = (b.idx, i, s.rv)
         return self._agg_site or None
 
+    def callback_site(self):
+        """for a closure handed to a private function of the same file that invokes it exactly once (`fn update_file(&self, path, update:
+        impl FnOnce(&mut MemoryFile))` … `update(file)`): (helper body, block of the invocation in the helper, the tuple of values the
+        helper passes, {helper argument index: term the caller passed}); None otherwise"""
+        if hasattr(self, "_cbs"):
+            return self._cbs
+        self._cbs = None
+        site = self._closure_agg()
+        pt = self.parent_tracer()
+        if site is None or pt is None or self.body.coroutine:
+            return None
+        bb, idx, rv = site
+        clo_local = pt.body.blocks[bb].stmts[idx].lhs
+        if not clo_local.is_local():
+            return None
+        cl = clo_local.local
+        for b in pt.body.calls():
+            t = b.term
+            for ai, a in enumerate(t.args):
+                if not (a.kind in ("move", "copy") and a.place.is_local() and a.place.local == cl):
+                    continue
+                res = t.resolved()
+                tp = (res.get("path") if isinstance(res, dict) else res) if res else None
+                hb = None
+                for cand in (tp, t.callee()):
+                    if cand and self.facts.body(cand) is not None:
+                        hb = self.facts.body(cand)
+                        break
+                if hb is None or hb.kind == "Closure" or hb.vis == "pub" or hb.file != self.body.file or \
+                        (hb.impl and hb.impl.get("trait")) or hb.id == pt.body.id:
+                    return None
+                ht = get_tracer(self.facts, hb)
+                calls = []
+                for hblk in hb.calls():
+                    ht_ = hblk.term
+                    if short(ht_.callee() or "") in ("FnOnce::call_once", "FnMut::call_mut", "Fn::call") and len(ht_.args) == 2 and \
+                            ht_.args[0].place is not None and ht_.args[0].place.is_local():
+                        l0 = ht_.args[0].place.local
+                        # the callee operand is (a move of) the helper's parameter number ai
+                        for _ in range(3):
+                            ds = ht.defs.get(l0, [])
+                            if 1 <= l0 <= hb.arg_count or len(ds) != 1 or ds[0][0] != "assign":
+                                break
+                            rv0 = hb.blocks[ds[0][1]].stmts[ds[0][2]].rv
+                            if rv0.kind in ("use",) and rv0.ops[0].place is not None and rv0.ops[0].place.is_local():
+                                l0 = rv0.ops[0].place.local
+                            elif rv0.kind == "ref" and rv0.place.is_local():
+                                l0 = rv0.place.local
+                            else:
+                                break
+                        if l0 == ai + 1:
+                            calls.append(hblk)
+                if len(calls) != 1:
+                    return None
+                vals = ht.operand(calls[0].term.args[1])
+                acts = {j: pt.operand(x) for j, x in enumerate(t.args)}
+                self._cbs = (hb, calls[0].idx, vals, acts)
+                return self._cbs
+        return None
+
+    @staticmethod
+    def subst_args(term, hid, acts):
+        """term of the helper `hid` with its parameters replaced by what the caller passed"""
+        if not isinstance(term, tuple):
+            return term
+        if len(term) >= 4 and term[0] == "arg" and term[3] == hid and term[1] in acts:
+            return acts[term[1]]
+        return tuple(Tracer.subst_args(x, hid, acts) if isinstance(x, tuple) else x for x in term)
+
     def param_binding(self, l):
         """for a closure passed directly to a known combinator: what its first parameter is bound to"""
         if l != 2:
@@ -155,6 +224,12 @@ class Tracer:
         if hasattr(self, "_pb"):
             return self._pb
         self._pb = None
+        cbs = self.callback_site()
+        if cbs is not None:
+            hb, _, vals, acts = cbs
+            if vals[0] == "tuple" and len(vals[1]) >= 1:
+                self._pb = Tracer.subst_args(vals[1][0], hb.id, acts)
+                return self._pb
         site = self._closure_agg()
         pt = self.parent_tracer()
         if site is None or pt is None:
